@@ -4,7 +4,7 @@ CONSTANTS
   MaxTime = 6
   MaxEnv = 3
   MaxForce = 1
-  EnvKinds = {"put", "putbad", "putold", "trunc", "app", "rm", "dir", "loop", "unread"}
+  EnvKinds = {"put", "putbad", "putold", "trunc", "app", "rm", "dir", "loop", "unread", "close", "slow"}
   InitKinds = {"good", "none", "bad", "dir", "loop", "unread"}
   OldStamps = {0, 15, 21, 23}
   Devs = {}
